@@ -40,15 +40,30 @@ def units(ctx):
         for mu in reach.truths(4, 2, True):
             us.append(("reach", PROPERTY, "VOGP", ("theta", 120), 2, 4, mu, 8, 1))
             us.append(("reach", PROPERTY, "EpsilonPAL", None, 2, 4, mu, 8, 1))
-    us.sort(key=lambda u: -u[5])
+    for alg in ("VOGP", "EpsilonPAL"):
+        specs = [None] if alg == "EpsilonPAL" else [("comp", 2), ("theta", 60), ("theta", 120)]
+        for spec in specs:
+            for seed in ((ctx.seed, ctx.seed + 1) if ctx.thorough else (ctx.seed,)):
+                us.append(("realreach", PROPERTY, alg, spec, 4, {"contraction": 2.0, "max_rounds": 60}, 3 if ctx.thorough else 2, seed))
+    us.sort(key=lambda u: (0 if u[0] == "realreach" else 1, -u[5] if u[0] != "realreach" else 0))
     return us
 
 
 def run_unit(unit):
+    if unit[0] == "realreach":
+        res = core.new_result()
+        reach.run_real_reach(unit, res)
+        return res
     return reach.run_unit(unit)
 
 
 def replay_case(case):
+    if case.get("mode") == "realreach":
+        res = core.new_result()
+        u = list(case["unit"])
+        u[3] = reach._fix_spec(u[3])
+        reach.run_real_reach(tuple(u), res, replay=case["path"])
+        return res["violations"]
     return reach.replay_case(case)
 
 
